@@ -931,22 +931,46 @@ def observed(c):
             "dump_args": o.get("dump_args"), "dump_ret": o.get("dump_ret")}
 
 
+def run_batch_checked(ctx, impl, b):
+    """run one batch; a crash of the traced process inside the hooks is a violation of its own"""
+    try:
+        impl.run_batch(b)
+        return True
+    except (RuntimeError, subprocess.TimeoutExpired) as e:
+        if len(b) == 1:
+            ctx.extra["crashes"] = ctx.extra.get("crashes", 0) + 1
+            if ctx.extra["crashes"] <= 3:
+                ctx.violation("C09: capturing the arguments of this call faults (or hangs) the traced process",
+                              {"mode": "crash", "case": public(b[0]), "error": str(e)[-600:]}, True)
+            return False
+        ctx.log("harness run failed for a batch of %d cases (%s); running them one by one" % (len(b), str(e)[:120]))
+        return False
+
+
 def run_cases_through(ctx, impl, cases, name):
     """execute, evaluate; returns (batches, res)"""
     prepare(impl, cases)
-    batches = [cases[i:i + 31] for i in range(0, len(cases), 31)]
-    for b in batches:
-        impl.run_batch(b)
+    todo = [cases[i:i + 31] for i in range(0, len(cases), 31)]
+    batches = []
+    while todo:
+        b = todo.pop(0)
+        if not run_batch_checked(ctx, impl, b):
+            if len(b) > 1:
+                todo = [[c] for c in b] + todo
+            continue
+        batches.append(b)
         if not impl.replay_ok:
             # the reader lost its footing: find the first call whose text is missing
             bad = next((c for c in b if c["obs"]["args_text"] is None), b[0])
             rc, out, err = impl.last_replay
-            ctx.violation("C09: `uftrace replay` no longer decodes the records that follow a payload "
-                          "(output does not have the expected call sequence)",
-                          {"mode": "resync", "case": public(bad), "batch": [public(c) for c in b],
-                           "replay_rc": rc, "replay_output_tail": out[-1500:].decode("latin-1"),
-                           "replay_stderr": err[-500:].decode("latin-1")}, True)
-    res = evaluate(ctx, batches, name)
+            ctx.extra["resync_failures"] = ctx.extra.get("resync_failures", 0) + 1
+            if ctx.extra["resync_failures"] <= 3:
+                ctx.violation("C09: `uftrace replay` no longer decodes the records that follow a payload "
+                              "(output does not have the expected call sequence)",
+                              {"mode": "resync", "case": public(bad), "batch": [public(c) for c in b],
+                               "replay_rc": rc, "replay_output_tail": out[-1500:].decode("latin-1"),
+                               "replay_stderr": err[-500:].decode("latin-1")}, True)
+    res = evaluate(ctx, batches, name) if batches else {"mismatch": [], "violations": []}
     return batches, res
 
 
@@ -1009,11 +1033,15 @@ def defect_witnesses(ctx, impl):
     batches, res = run_cases_through(ctx, impl, cases, "witness")
     if res is None:
         return
-    bad = set(i for _, i in res["violations"])
-    mism = set(i for _, i in res["mismatch"])
+    pos = {id(c): (bi, i) for bi, b in enumerate(batches) for i, c in enumerate(b)}
+    bad = set(pos[id(c)] for c in cases if id(c) in pos and pos[id(c)] in set(res["violations"]))
+    mism = set(pos[id(c)] for c in cases if id(c) in pos and pos[id(c)] in set(res["mismatch"]))
     pending = []
-    for i, (key, _) in enumerate(WITNESSES):
-        c = cases[i]
+    for n, (key, _) in enumerate(WITNESSES):
+        c = cases[n]
+        if id(c) not in pos:
+            continue                          # it crashed the traced process: reported by run_cases_through
+        i = pos[id(c)]
         ctx.case(key=("witness", key), tags=c["tags"])
         if i in mism:
             ctx.violation("model and implementation disagree on the witness of known defect %s" % key,
@@ -1073,7 +1101,7 @@ def run(ctx):
     for _ in range(ctx.n(330, 6000)):
         cases.append(g.call())
     batches, res = run_cases_through(ctx, impl, cases, "cases")
-    count_cases(ctx, cases)
+    count_cases(ctx, [c for b in batches for c in b])
     verdict(ctx, batches, res)
     defect_witnesses(ctx, impl)
 
@@ -1090,6 +1118,8 @@ def replay(ctx, obj):
     c["strings"] = {int(k): v for k, v in c["strings"].items()}
     c["objs"] = {int(k): v for k, v in c["objs"].items()}
     batches, res = run_cases_through(ctx, impl, [c], "replay")
+    if not batches:
+        return
     count_cases(ctx, [c])
     ctx.log("replayed:", json.dumps(observed(c))[:1500])
     if obj.get("mode") == "witness":
